@@ -1233,7 +1233,46 @@ def replay_sockpair(case):
     return {"reproduced": bool(failed), "failed": failed, "detail": "; ".join(failed) or "ok"}
 
 
-REPLAYERS = {'sockpair': replay_sockpair, 'definition': replay_definition, 'length': replay_length, 'siblings': replay_siblings, 'options': replay_options, 'names': replay_names, 'setattr': replay_setattr, 'tables': replay_tables, 'threads': replay_threads, 'chunked': replay_chunked, 'sockread': replay_sockread, 'parseseq': replay_parseseq, 'roundtrip': replay_roundtrip, 'labelopt': replay_labelopt, 'crcseq': replay_crcseq, 'crc': replay_crc, 'construct': replay_construct, 'stream': replay_stream, 'socket': replay_stream, 'parse': replay_parse}
+def replay_sockstream(case):
+    """reader over a scripted socket (cuts, one timeout); the caller keeps reading after end-of-data indications"""
+    from pyrtcm.rtcmreader import RTCMReader
+    import logging
+    logging.disable(logging.CRITICAL)
+    data = bytes.fromhex(case['data'])
+    sock = ScriptSocket(data, case.get('recv_log'))
+    failed = []
+    try:
+        rdr = RTCMReader(sock, quitonerror=case.get('mode', 1), errorhandler=lambda e: None)
+        got = []
+        for _ in range(len(data) + 6):
+            try:
+                raw, msg = rdr.read()
+            except Exception as e:  # noqa
+                if not is_lib_error(e):
+                    failed.append(f"foreign exception {type(e).__name__}")
+                    break
+                continue
+            if raw is not None:
+                got.append((bytes(raw), msg))
+            elif sock.pos >= len(data) and len(rdr.datastream.buffer) == 0:
+                break
+        pos = 0
+        for raw, msg in got:
+            i = data.find(raw, pos)
+            if i < 0:
+                failed.append(f"returned bytes {raw.hex()} are not a slice of the stream after offset {pos}")
+                break
+            pos = i + len(raw)
+            if not frame_ok(raw):
+                failed.append(f"returned frame {raw.hex()} is not a valid RTCM3 frame")
+            elif msg is None or msg.payload != raw[3:-3]:
+                failed.append("parsed payload differs from the frame payload")
+    finally:
+        sock.close()
+    return {"reproduced": bool(failed), "failed": failed, "detail": "; ".join(failed)[:400] or "ok"}
+
+
+REPLAYERS = {'sockstream': replay_sockstream, 'sockpair': replay_sockpair, 'definition': replay_definition, 'length': replay_length, 'siblings': replay_siblings, 'options': replay_options, 'names': replay_names, 'setattr': replay_setattr, 'tables': replay_tables, 'threads': replay_threads, 'chunked': replay_chunked, 'sockread': replay_sockread, 'parseseq': replay_parseseq, 'roundtrip': replay_roundtrip, 'labelopt': replay_labelopt, 'crcseq': replay_crcseq, 'crc': replay_crc, 'construct': replay_construct, 'stream': replay_stream, 'socket': replay_stream, 'parse': replay_parse}
 
 
 def replay(case):
